@@ -1,7 +1,283 @@
 package secp256k1
 
-import "testing"
+// Independent affine oracle for secp256k1 (math/big only) and the element batteries that turn
+// a failed solver obligation into a concrete, replayable witness on real curve points.
 
-func vRunCase3(t *testing.T, c vCase) string {
-	return "unknown case kind " + c.Kind
+import (
+	"bytes"
+	"encoding/hex"
+	"math/big"
+	"math/rand"
+	"testing"
+
+	"github.com/bytemare/secp256k1/internal/field"
+)
+
+type vPt struct {
+	x, y *big.Int
+	inf  bool
+}
+
+var (
+	vGx, _ = new(big.Int).SetString("79be667ef9dcbbac55a06295ce870b07029bfcdb2dce28d959f2815b16f81798", 16)
+	vGy, _ = new(big.Int).SetString("483ada7726a3c4655da4fbfc0e1108a8fd17b448a68554199c47d08ffb10d4b8", 16)
+)
+
+func vInf() vPt { return vPt{inf: true} }
+func vG() vPt   { return vPt{x: new(big.Int).Set(vGx), y: new(big.Int).Set(vGy)} }
+
+func vModP(v *big.Int) *big.Int { return v.Mod(v, vP) }
+
+func vNeg(p vPt) vPt {
+	if p.inf {
+		return p
+	}
+	return vPt{x: new(big.Int).Set(p.x), y: vModP(new(big.Int).Neg(p.y))}
+}
+
+func vAddPt(p, q vPt) vPt {
+	if p.inf {
+		return q
+	}
+	if q.inf {
+		return p
+	}
+	var lam *big.Int
+	if p.x.Cmp(q.x) == 0 {
+		if new(big.Int).Mod(new(big.Int).Add(p.y, q.y), vP).Sign() == 0 {
+			return vInf()
+		}
+		num := new(big.Int).Mul(big.NewInt(3), new(big.Int).Mul(p.x, p.x))
+		den := new(big.Int).ModInverse(new(big.Int).Mul(big.NewInt(2), p.y), vP)
+		lam = vModP(num.Mul(num, den))
+	} else {
+		num := new(big.Int).Sub(q.y, p.y)
+		den := new(big.Int).ModInverse(vModP(new(big.Int).Sub(q.x, p.x)), vP)
+		lam = vModP(num.Mul(num, den))
+	}
+	x3 := new(big.Int).Mul(lam, lam)
+	x3.Sub(x3, p.x)
+	x3.Sub(x3, q.x)
+	vModP(x3)
+	y3 := new(big.Int).Sub(p.x, x3)
+	y3.Mul(y3, lam)
+	y3.Sub(y3, p.y)
+	vModP(y3)
+	return vPt{x: x3, y: y3}
+}
+
+func vMulPt(k *big.Int, p vPt) vPt {
+	r := vInf()
+	for i := k.BitLen() - 1; i >= 0; i-- {
+		r = vAddPt(r, r)
+		if k.Bit(i) == 1 {
+			r = vAddPt(r, p)
+		}
+	}
+	return r
+}
+
+func vSame(p, q vPt) bool {
+	if p.inf || q.inf {
+		return p.inf == q.inf
+	}
+	return p.x.Cmp(q.x) == 0 && p.y.Cmp(q.y) == 0
+}
+
+func (p vPt) String() string {
+	if p.inf {
+		return "inf"
+	}
+	return "(" + p.x.Text(16) + "," + p.y.Text(16) + ")"
+}
+
+func vFeOf(v *big.Int) field.Element {
+	var b [32]byte
+	new(big.Int).Mod(v, vP).FillBytes(b[:])
+	e, _ := field.New().FromBytesWithReduce(b)
+	return *e
+}
+
+func vFeVal(e *field.Element) *big.Int { return new(big.Int).SetBytes(e.Bytes()) }
+
+// vElementOf builds the projective representation (x*l : y*l : l) of p, or (0 : l : 0) for the identity.
+func vElementOf(p vPt, l *big.Int) *Element {
+	if p.inf {
+		return &Element{x: vFeOf(big.NewInt(0)), y: vFeOf(l), z: vFeOf(big.NewInt(0))}
+	}
+	return &Element{x: vFeOf(new(big.Int).Mul(p.x, l)), y: vFeOf(new(big.Int).Mul(p.y, l)), z: vFeOf(l)}
+}
+
+// vPointOf reads the raw coordinates; ok=false if they are not a valid representation of a curve point.
+func vPointOf(e *Element) (vPt, bool) {
+	X, Y, Z := vFeVal(&e.x), vFeVal(&e.y), vFeVal(&e.z)
+	if Z.Sign() == 0 {
+		return vInf(), X.Sign() == 0 && Y.Sign() != 0
+	}
+	zi := new(big.Int).ModInverse(Z, vP)
+	x := vModP(new(big.Int).Mul(X, zi))
+	y := vModP(new(big.Int).Mul(Y, zi))
+	lhs := vModP(new(big.Int).Mul(y, y))
+	rhs := vModP(new(big.Int).Add(new(big.Int).Mul(x, new(big.Int).Mul(x, x)), big.NewInt(7)))
+	return vPt{x: x, y: y}, lhs.Cmp(rhs) == 0
+}
+
+func vSec1(p vPt, compressed bool) []byte {
+	if p.inf {
+		return []byte{0}
+	}
+	if compressed {
+		return append([]byte{byte(2 + p.y.Bit(0))}, vPad32(p.x)...)
+	}
+	return append(append([]byte{4}, vPad32(p.x)...), vPad32(p.y)...)
+}
+
+type vNamed struct {
+	name string
+	p    vPt
+	l    *big.Int
+}
+
+func vPool(seed int64) []vNamed {
+	rng := rand.New(rand.NewSource(seed + 11))
+	rl := func() *big.Int {
+		l := new(big.Int).Rand(rng, vP)
+		if l.Sign() == 0 {
+			l.SetInt64(1)
+		}
+		return l
+	}
+	g := vG()
+	nm1 := new(big.Int).Sub(vN, big.NewInt(1))
+	ks := []*big.Int{big.NewInt(1), big.NewInt(2), big.NewInt(3), nm1, new(big.Int).Sub(vN, big.NewInt(2)), new(big.Int).Rand(rng, vN), new(big.Int).Rand(rng, vN)}
+	out := []vNamed{{"O(0:1:0)", vInf(), big.NewInt(1)}, {"O(0:r:0)", vInf(), rl()}}
+	for _, k := range ks {
+		p := vMulPt(k, g)
+		out = append(out, vNamed{"[" + k.Text(16) + "]G*1", p, big.NewInt(1)}, vNamed{"[" + k.Text(16) + "]G*r", p, rl()})
+	}
+	return out
+}
+
+func vRunCase3(t *testing.T, c vCase) (msg string) {
+	switch c.Kind {
+	case "el-battery":
+		pool := vPool(int64(c.N))
+		fail := func(s string) string { return c.Op + ": " + s }
+		for _, a := range pool {
+			pa := a.p
+			// unary
+			if c.Op == "group" || c.Op == "all" {
+				e := vElementOf(pa, a.l)
+				if got, ok := vPointOf(e.Double()); !ok || !vSame(got, vAddPt(pa, pa)) {
+					return fail("Double(" + a.name + ") = " + got.String())
+				}
+				e = vElementOf(pa, a.l)
+				if got, ok := vPointOf(e.Negate()); !ok || !vSame(got, vNeg(pa)) {
+					return fail("Negate(" + a.name + ") = " + got.String())
+				}
+				e = vElementOf(pa, a.l)
+				if got, ok := vPointOf(e.Add(e)); !ok || !vSame(got, vAddPt(pa, pa)) {
+					return fail("P.Add(P) for " + a.name)
+				}
+				e = vElementOf(pa, a.l)
+				if got, ok := vPointOf(e.Subtract(e)); !ok || !got.inf {
+					return fail("P.Subtract(P) for " + a.name)
+				}
+				e = vElementOf(pa, a.l)
+				if got, ok := vPointOf(e.Add(nil)); !ok || !vSame(got, pa) {
+					return fail("Add(nil)")
+				}
+				if got, ok := vPointOf(e.Subtract(nil)); !ok || !vSame(got, pa) {
+					return fail("Subtract(nil)")
+				}
+			}
+			if c.Op == "encode" || c.Op == "all" {
+				e := vElementOf(pa, a.l)
+				if enc := e.Encode(); !bytes.Equal(enc, vSec1(pa, true)) {
+					return fail("Encode(" + a.name + ") = " + hex.EncodeToString(enc))
+				}
+				if x := e.XCoordinate(); !bytes.Equal(x, vSec1(pa, true)[1:]) {
+					return fail("XCoordinate(" + a.name + ")")
+				}
+				if h := e.Hex(); h != hex.EncodeToString(vSec1(pa, true)) {
+					return fail("Hex(" + a.name + ")")
+				}
+				if mb, err := e.MarshalBinary(); err != nil || !bytes.Equal(mb, vSec1(pa, true)) {
+					return fail("MarshalBinary(" + a.name + ")")
+				}
+				unc := e.EncodeUncompressed()
+				if !pa.inf && !bytes.Equal(unc, vSec1(pa, false)) {
+					return fail("EncodeUncompressed(" + a.name + ") = " + hex.EncodeToString(unc))
+				}
+				for _, enc := range [][]byte{e.Encode(), unc} {
+					d := NewElement().Base()
+					if err := d.Decode(enc); err != nil {
+						return fail("Decode(" + hex.EncodeToString(enc) + ") of an encoding of " + a.name + " failed: " + err.Error())
+					}
+					if got, ok := vPointOf(d); !ok || !vSame(got, pa) {
+						return fail("Decode(Encode(" + a.name + ")) = " + got.String())
+					}
+				}
+			}
+			for _, b := range pool {
+				pb := b.p
+				if c.Op == "group" || c.Op == "all" {
+					e, f := vElementOf(pa, a.l), vElementOf(pb, b.l)
+					if got, ok := vPointOf(e.Add(f)); !ok || !vSame(got, vAddPt(pa, pb)) {
+						return fail("Add(" + a.name + ", " + b.name + ") = " + got.String() + " want " + vAddPt(pa, pb).String())
+					}
+					if got, _ := vPointOf(f); !vSame(got, pb) {
+						return fail("Add changed its argument")
+					}
+					e = vElementOf(pa, a.l)
+					if got, ok := vPointOf(e.Subtract(f)); !ok || !vSame(got, vAddPt(pa, vNeg(pb))) {
+						return fail("Subtract(" + a.name + ", " + b.name + ") = " + got.String())
+					}
+					if got, _ := vPointOf(f); !vSame(got, pb) {
+						return fail("Subtract changed its argument")
+					}
+				}
+				if c.Op == "equal" || c.Op == "all" {
+					e, f := vElementOf(pa, a.l), vElementOf(pb, b.l)
+					want := 0
+					if vSame(pa, pb) {
+						want = 1
+					}
+					if e.Equal(f) != want || f.Equal(e) != want {
+						return fail("Equal(" + a.name + ", " + b.name + ") != " + itoa(want))
+					}
+					if e.IsIdentity() != pa.inf {
+						return fail("IsIdentity(" + a.name + ")")
+					}
+				}
+			}
+		}
+	case "multiply":
+		// a = scalar (hex), b = multiple of G used as the point (hex), c = scaling factor
+		k, j, l := vBig(c.A), vBig(c.B), vBig(c.C)
+		p := vMulPt(j, vG())
+		if j.Sign() == 0 {
+			p = vInf()
+		}
+		if l.Sign() == 0 {
+			l.SetInt64(1)
+		}
+		e := vElementOf(p, l)
+		got, ok := vPointOf(e.Multiply(vScalarOf(t, k)))
+		want := vMulPt(k, p)
+		if !ok || !vSame(got, want) {
+			return "[" + c.A + "]([" + c.B + "]G) = " + got.String() + ", want " + want.String()
+		}
+		if !bytes.Equal(e.Encode(), vSec1(want, true)) {
+			return "Encode of the product differs from the oracle's SEC1 encoding"
+		}
+	case "multiply-nil":
+		e := vElementOf(vG(), big.NewInt(3))
+		if got, ok := vPointOf(e.Multiply(nil)); !ok || !got.inf {
+			return "Multiply(nil) is not the identity"
+		}
+	default:
+		return vRunCase4(t, c)
+	}
+	return ""
 }
